@@ -4,6 +4,8 @@ C01 - best-fit A_V and scale are the constrained least-squares optimum (distance
 Oracle: vlib.oracle_fit.Ref2D (exact rational normal equations + box constraint) for EVERY model of the grid,
 results matched by model name.
 """
+import os
+
 from hypothesis import strategies as st
 
 from vlib import gen
@@ -76,7 +78,20 @@ def run_case(case, ctx):
     if float32:
         labels.add('float32')
     compared = 0
+    generations = [case]
+    if len(names) >= 1 and (len(names) + len(case['filters'])) % 2 == 0:
+        # second generation: same directory and filter names, every model's fluxes replaced (models reversed and rescaled)
+        g2 = dict(case)
+        g2['grid'] = dict(case['grid'])
+        g2['grid']['logflux'] = [[v * 0.5 + 0.25 * j for j, v in enumerate(row)] for row in case['grid']['logflux'][::-1]]
+        generations.append(g2)
+        labels.add('package_rewritten_in_place')
     with ctx.tempdir() as d:
+      for gcase in generations:
+        case = gcase
+        import shutil
+        for sub in ('convolved',):
+            shutil.rmtree(os.path.join(d, sub), ignore_errors=True)
         gen.build_package_2d(d, case)
         for av_range in case['av_ranges']:
             if av_range[0] == av_range[1]:
